@@ -229,6 +229,12 @@ def synth(g, env, t, passthrough=0.3):
         if dom == "count":
             dom = "pos"
         srcs = float_sources(env)
+        ch = g.P.get("chain", 0.0)
+        if ch > 0 and env and rng.random() < ch:
+            # dependency chains: read the most recent value (a -> f(a) -> g(f(a)))
+            last = float_sources(env[-1:])
+            if last:
+                srcs = last
         if not srcs or rng.random() < 0.2:
             return lit(rng, ["F", dom])
         e, d = srcs[rng.randrange(len(srcs))]
@@ -399,11 +405,18 @@ def gen_static(g, depth, ptypes=None, out=None, budget=None, kw_ok=False, ret_fr
     group = g.fresh("g")
     pending = None  # (switch node, statement index of the choice that selects its branch)
     cs = P.get("choice_switch", 0.0)
-    for j in range(nst + 1):
-        if budget <= 0 or (j >= nst and pending is None):
+    c3 = P.get("chain3", 0.0)
+    tail = False  # a consumer of the chain3 function's value is still to come
+    for j in range(nst + 2):
+        if budget <= 0 or (j >= nst and pending is None and not tail):
             break
         forced_index = None
-        if pending is not None:
+        forced_arg = None
+        if tail and pending is None:
+            tail = False
+            callee = {"k": "dist", "d": "normal"}
+            forced_arg = ["real", float_sources(env[-1:])[0][0]]
+        elif pending is not None:
             # `i ~ categorical(...) @ a; switch(...)(i, ...) @ b`: a branch index
             # that is itself a random choice (what genjax.mix does)
             callee, forced_index = pending
@@ -412,6 +425,13 @@ def gen_static(g, depth, ptypes=None, out=None, budget=None, kw_ok=False, ret_fr
             sw = gen_any(g, max(depth - 1, 1), budget=budget - 1, kinds={"switch": 1})
             callee = {"k": "dist", "d": "categorical", "n": len(sw["branches"])}
             pending = (sw, len(stmts))
+        elif c3 > 0 and budget >= 2 and stmts and float_sources(env[-1:]) and rng.random() < c3:
+            # a -> s = f(a) @ "s" -> ...: a nested function whose return value is a
+            # deterministic function of its argument (plus its own choices)
+            callee = gen_static(g, 0, ptypes=[["F", "real"]], out=["F", "real"], budget=min(budget, 2))
+            callee["ret"] = ["real", ["add", ["p", 0], callee["ret"]]]
+            forced_arg = ["real", float_sources(env[-1:])[0][0]]
+            tail = True
         elif depth > 0 and rng.random() < P["nest"]:
             callee = gen_any(g, depth - 1, budget=budget)
         else:
@@ -436,6 +456,8 @@ def gen_static(g, depth, ptypes=None, out=None, budget=None, kw_ok=False, ret_fr
             st["args"] = [synth(g, env, t) for t in ins]
         if forced_index is not None and forced_index < len(stmts) and stmts[forced_index]["callee"].get("d") == "categorical":
             st["args"][0] = ["v", forced_index]
+        if forced_arg is not None:
+            st["args"][0] = forced_arg
         base = letters[j % 8]
         if callee["k"] == "dist":
             name = base + LEAF_CODE[callee["d"]] + str(callee.get("n", ""))
